@@ -37,7 +37,7 @@ def _variants(prop, case):
         if ctor[0] == "rows":
             return [{"via": RVIAS[h % len(RVIAS)]}] if TIER == "quick" else [{"via": "rows"}, {"via": RVIAS[h % len(RVIAS)]}]
         if ctor[0] == "flat":
-            return [{"lkind": ["list", "array", "tuple"][h % 3]}]     # a RaggedShape object is not "row lengths": see DESIGN 6.3
+            return [{"lkind": ["list", "array", "tuple", "i1arr", "u2arr", "boolarr"][h % 6]}]     # a RaggedShape object is not "row lengths": see DESIGN 6.3
         return [{"layout": ["C", "F", "T", "strided"][h % 4]}]
     if op in ("getitem", "setitem"):
         sp = SPELLINGS[h % len(SPELLINGS)]
